@@ -288,9 +288,16 @@ impl<F: Write + Seek> MiniAllocator<F> {
             }
         }
         // Add a new mini sector to the end of the mini stream and return it.
+        // The mini stream is grown first: if that fails, the MiniFAT must not
+        // already have an entry for a mini sector that does not exist (a
+        // retry would then hand out mini sectors beyond the mini stream).
         let new_mini_sector = self.minifat.len() as u32;
+        let needed_len = (new_mini_sector as u64 + 1)
+            * consts::MINI_SECTOR_LEN as u64;
+        if self.directory.root_dir_entry().stream_len < needed_len {
+            self.append_mini_sector()?;
+        }
         self.set_minifat(new_mini_sector, value)?;
-        self.append_mini_sector()?;
         Ok(new_mini_sector)
     }
 
